@@ -23,7 +23,7 @@ func c06Doc2() map[string]interface{} {
 	return map[string]interface{}{
 		"n":    4.0,
 		"s":    "b c wörld",
-		"arr1": []interface{}{7.0},
+		"arr1": append(make([]interface{}, 0, 4), 7.0),
 		"arr2": []interface{}{[]interface{}{8.0}},
 		"obj1": map[string]interface{}{"a": 5.0},
 		"objs": []interface{}{map[string]interface{}{"a": 6.0, "b": "y"}, map[string]interface{}{"a": "q"}, nil, []interface{}{}},
